@@ -29,7 +29,11 @@ def run(ctx):
                 "random histories pass such numbers in 3% of the calls, random catch-up prefills in 3%; hostile numbers "
                 "(isinstance(X, int) raises; an int subclass whose comparisons raise) are replayed against the model's "
                 "prediction and reported as notes; (h) format events (no 'message' key, float level, text number, named "
-                "arguments) through the three stages of the JSON chain")
+                "arguments) through the three stages of the JSON chain; (i) round 7, on disk when msg() returns: in EVERY "
+                "logger history the incident file a newly created reporter leaves is read through a second file handle right "
+                "after the triggering call returned, before any reactor turn (header with the trigger + every buffered event "
+                "expected); fixed witnesses: snapshots smaller than one stdio buffer, the 37 events of the round-7 demo, 120 "
+                "padded events (several buffers), a trigger whose own buffer holds nothing, unencodable values, both reporters")
     ctx.assumptions = ["CPython's json module is modelled, not verified: which values the encoder refuses (keys other than "
                        "str/int/float/bool/None -> TypeError, containers that contain themselves and integers too large to print "
                        "-> ValueError, nesting beyond the recursion budget -> RecursionError), that it consults default= for "
@@ -57,6 +61,9 @@ def run(ctx):
                        "order against the other keys (a float among ints, two strings alone)",
                        "msg() never raises: for Exception subclasses; a BaseException such as KeyboardInterrupt raised by a __str__ "
                        "escapes msg (log.py catches `except Exception`), recorded as observation_keyboardinterrupt_in_str",
+                       "on disk when msg() returns: a flush hands the bytes to the operating system (what a second reader sees "
+                       "and what survives the death of the process; not a power failure: there is no fsync in foolscap); "
+                       "trailing events are not claimed (trailing_event does not flush)",
                        "read-back of format events: number / level / format string / scalar named arguments are proved preserved; "
                        "the rendered text is NOT when an argument needed the fallback encoder (stated next to "
                        "C18_format_event_reads_back)"]
@@ -65,7 +72,7 @@ def run(ctx):
     before = len(ctx.failures)
     model_ok = ok
     if not ok:
-        model_ok, _ = ctx.coq_build(["lib/LogBuf.vo", "lib/LogJson.vo", "lib/LogFmt.vo", "lib/LogReent.vo"])
+        model_ok, _ = ctx.coq_build(["lib/LogBuf.vo", "lib/LogJson.vo", "lib/LogFmt.vo", "lib/LogReent.vo", "lib/LogDisk.vo"])
     import time
     tm = {}
 
@@ -77,6 +84,7 @@ def run(ctx):
     timed("corpus", run_corpus, ctx, impl)
     traces = timed("logger", logger_traces, ctx, impl)
     traces += timed("odd_nums", noninteger_num_family, ctx, impl)
+    traces += timed("durable", durable_family, ctx, impl)
     subs = timed("subs", subscription_traces, ctx, impl)
     wruns = timed("writers", writer_family, ctx, impl)
     fines = timed("fine", fine_traces, ctx, impl)
@@ -87,6 +95,7 @@ def run(ctx):
     rruns = timed("reentrant", reentrant_trees, ctx, impl)
     if model_ok:
         timed("c_logger", correspond_logger, ctx, traces)
+        timed("c_disk", correspond_disk, ctx, traces)
         timed("c_subs", correspond_subs, ctx, subs)
         timed("c_writers", correspond_writers, ctx, wruns)
         timed("c_fine", correspond_fine, ctx, fines)
@@ -188,6 +197,7 @@ def run_trace(ctx, impl, cfg, ops, name="t", judge=True):
     rig = impl.LoggerRig(name, qual, trailing, logfile=True)
     L = rig.L
     steps, flags, expected = [], [], []
+    disks = []
     last_auto = None
     maxlimit = L.DEFAULT_SIZELIMIT
     kinds, unenc = set(), [False]
@@ -206,7 +216,11 @@ def run_trace(ctx, impl, cfg, ops, name="t", judge=True):
             n0 = len(rig.order)
             ir0 = L.get_active_incident_reporter()
             stuck0 = ir0 is not None and trailing and getattr(ir0, "timer", None) is None
-            r, exc, reprok = impl.call_msg(rig, op)
+            wr0 = getattr(L, "active_incident_reporter_weakref", None)
+            r, exc, reprok = impl.do_call(rig, op)
+            # durability: what a second reader finds on disk at the moment the call returns (before any reactor turn)
+            disk = impl.disk_at_return(rig, wr0) if op[0] in ("msg", "bad") else None
+            rig.turn()
             if op[0] == "size":
                 maxlimit = max(maxlimit, op[3])
             if op[0] == "fault":
@@ -264,6 +278,11 @@ def run_trace(ctx, impl, cfg, ops, name="t", judge=True):
                     #  fallback is the trigger)
                     expected.append(dict(step=k, trigger=impl.view(trig[0]), triggers=[impl.view(e) for e in trig],
                                          buffered=[impl.view(e) for e in L.get_buffered_events()], swallowed=stuck0))
+                    if disk is not None and not stuck0:
+                        durable_oracle(bad, expected[-1], disk, trailing, k)
+                        if not odd_num:
+                            disks.append(dict(step=k, n=len(expected[-1]["buffered"]), size=disk["size"], error=disk["error"],
+                                              header=disk["header"] is not None, events=len(disk["events"])))
             ir = L.get_active_incident_reporter()
             explicit_odd = op[0] == "msg" and isinstance(op[1], list) and exc is None
             steps.append([impl.numcode(r) if explicit_odd else NORET if r is None or not isinstance(r, int) else r,
@@ -367,8 +386,80 @@ def run_trace(ctx, impl, cfg, ops, name="t", judge=True):
                                                                       min(len(got), len(want)))))
             for d in back[:50]:
                 check_back("all.flog", d)
-    return dict(cfg=cfg, ops=ops, flags=flags, steps=steps, final=final, triggers=len(expected), hit_limit=hit_limit,
+    return dict(cfg=cfg, ops=ops, flags=flags, steps=steps, final=final, triggers=len(expected), hit_limit=hit_limit, disks=disks,
                 kinds=sorted(kinds), faulted_triggers=faulted_triggers, order=[norm_view(impl.view(e)) for e in rig.order])
+
+
+def durable_oracle(bad, x, disk, trailing, k):
+    """'an incident file contains its triggering event and everything that was buffered' AT THE MOMENT the triggering
+    log.msg() returns (the synchronous qualifier call in add_event exists for log.msg('abandon ship', level=BAD); exit):
+    a trailing reporter keeps the report open for TRAILING_DELAY seconds / TRAILING_EVENT_LIMIT events, the only copy that
+    exists in that window is the uncompressed .flog; it must already hold the header with the trigger and the whole
+    snapshot (incident_declared flushes it after copying the history).  Trailing events are NOT claimed (they are
+    flushed when the reporter finishes)."""
+    missing = [v for v in x["buffered"] if v not in disk["events"]]
+    if disk["error"] is None and disk["header"] in x["triggers"] and not missing:
+        return
+    what = []
+    if disk["error"] is not None:
+        what.append("reading it back raises %s" % disk["error"])
+    if disk["header"] is None:
+        what.append("it has no header")
+    elif disk["header"] not in x["triggers"]:
+        what.append("its header names trigger %r, expected %r" % (disk["header"], x["trigger"]))
+    if missing:
+        what.append("%d of the %d buffered events are missing (first %r)%s"
+                    % (len(missing), len(x["buffered"]), missing[0],
+                       ", among them the triggering event" if x["trigger"] in missing else ""))
+    bad("oracle/incident-not-on-disk-at-return", "right after the triggering log.msg() of op #%d returned (event %r, %s "
+        "reporter, before any reactor turn) the incident file %s as an independent reader finds it on disk (%d bytes; this "
+        "is what survives os._exit / SIGKILL before the reporter has finished) is incomplete: %s"
+        % (k, x["trigger"], "trailing" if trailing else "non-trailing", disk["file"], disk["size"], "; ".join(what)),
+        step=k, on_disk=dict(disk, events=disk["events"][:40]), expected=x)
+
+
+def durable_histories():
+    """fixed witnesses of the family 'complete on disk when msg() returns': (name, ops), each ending with a LATER trigger
+    that gets a reporter of its own.  tiny = less than one stdio buffer (an unflushed file is EMPTY), demo = the 37 events
+    of the round-7 demonstration, big = several stdio buffers (an unflushed file ends inside a JSON line), plus one
+    where the buffer of the trigger's own key holds nothing (size 0: the trigger is in the header only)"""
+    i1 = ["int", 1]
+    pad = ["str", "p" * 300]
+    later = [["timer"], ["msg", None, 0, 20, i1, "plain", 900], ["msg", None, 2, 35, i1, "format", 901], ["timer"]]
+    out = [("tiny", [["msg", None, 0, 40, i1, "plain", 0]] + later),
+           ("one-before", [["msg", None, 0, 20, i1, "plain", 0], ["msg", None, 0, 40, i1, "plain", 1]] + later)]
+    demo, c = [], 0
+    for i in range(12):
+        for fac, lvl, shape in ((2, 10, "plain"), (3, 20, "posargs2"), (0, 23, "format")):
+            demo.append(["msg", None, fac, lvl, i1, shape, c])
+            c += 1
+    out.append(("demo", demo + [["msg", None, 2, 40, i1, "plain", c]] + later))
+    big = [["msg", None, FACS[i % 4], [5, 10, 20, 23][(i // 4) % 4], pad, SHAPES[i % 7], i] for i in range(120)]
+    out.append(("big", big + [["msg", None, 0, 35, pad, "message-kw", 120], ["msg", None, 0, 20, i1, "plain", 121]] + later))
+    out.append(("trigger-unbuffered", [["size", 2, 40, 0], ["msg", None, 0, 20, i1, "plain", 0], ["msg", None, 3, 20, i1, "format", 1],
+                                       ["msg", None, 2, 40, i1, "plain", 2]] + later))
+    out.append(("odd-values", [["msg", None, 0, 20, ["badrepr"], "plain", 0], ["msg", None, 0, 20, ["cyclist"], "format", 1],
+                               ["msg", None, 3, 23, ["dict", [[["int", 1], ["set", [["int", 2]]]]]], "plain", 2],
+                               ["msg", None, 0, 40, ["badboth"], "plain", 3]] + later))
+    return out
+
+
+def durable_family(ctx, impl):
+    """fixed witnesses for oracle/incident-not-on-disk-at-return (both reporters); the traces also go through the model"""
+    out = []
+    for trailing in (True, False):
+        for name, ops in durable_histories():
+            before = len(ctx.failures)
+            t = run_trace(ctx, impl, (True, trailing), ops, name="durable", judge=True)
+            out.append(t)
+            ctx.case(["durable", name, trailing], nontrivial=True)
+            ctx.hist("durable_history", name)
+            fin = t["final"]
+            if (fin["recorded"] != 2 or fin["tmp"] != 0) and len(ctx.failures) == before:
+                ctx.fail("oracle/incident-lost", "history %s (%s reporter): %d incidents recorded, 2 expected; %d .tmp files left"
+                         % (name, "trailing" if trailing else "non-trailing", fin["recorded"], fin["tmp"]),
+                         replay=dict(cfg=[True, trailing], ops=ops))
+    return out
 
 
 def logger_traces(ctx, impl):
@@ -501,6 +592,36 @@ def noninteger_num_family(ctx, impl):
                  "object whose __class__ property raises: every isinstance() of the three stages raises, the event is written to "
                  "no file (result %r). Input: serialize_wrapper(f, dict(num=1, level=20, message='m', x=E()), ...)" % (ser,))
     return out
+
+
+def correspond_disk(ctx, traces):
+    """model (lib/LogDisk.v on the TRANSLATED order of writes and flushes of incident_declared) against the disk: for a
+    snapshot of n events the model says which lines are guaranteed to be on disk when msg() returns; the real file (read
+    through a second handle before any reactor turn) must hold at least those (a buffered file object may have passed on
+    more)"""
+    obs = [(t, d) for t in traces for d in t.get("disks", ())]
+    ns = sorted(set(d["n"] for t, d in obs))[:400]
+    if not ns:
+        return
+    vals = ctx.coq_eval("C18_disk", "\n".join("Eval vm_compute in (disk_counts %d)." % n for n in ns),
+                        requires=REQ + ["Verif.lib.LogDisk"])
+    pred = dict(zip(ns, vals))
+    bad = 0
+    for t, d in obs:
+        if d["n"] not in pred:
+            continue
+        ctx.traces += 1
+        v = pred[d["n"]]
+        magic, header, nev = v if len(v) == 3 else (v[0][0], v[0][1], v[1])
+        ctx.hist("disk_at_return_model_complete", bool(header and nev == d["n"]))
+        got_magic = d["error"] is None and d["size"] > 0
+        if (magic and not got_magic) or (header and not d["header"]) or d["events"] < nev:
+            bad += 1
+            if bad <= 2:
+                ctx.fail("correspondence/disk-at-return", "model: header %r and %d of %d snapshot lines are on disk when msg() "
+                         "returns; real file at op #%d: header %r, %d event lines, %d bytes, error %r"
+                         % (header, nev, d["n"], d["step"], d["header"], d["events"], d["size"], d["error"]),
+                         replay=dict(cfg=list(t["cfg"]), ops=t["ops"], disk=d), has_input=False)
 
 
 # ---- Coq side
